@@ -26,7 +26,7 @@ enum OpKind : uint8_t {
 };
 
 // scheduling point; returns true when the calling thread is scheduled (traced)
-bool pre_op( void const* addr ) noexcept;
+bool pre_op( void const* addr, int next_kind = -1 ) noexcept;
 // record the operation just performed. `a` = value read / expected / old, `b` = value written / argument
 void post_op( OpKind k, void const* addr, unsigned size, bool isptr, void const* a, void const* b ) noexcept;
 // called from back-off strategies (hook 2): the caller is spinning
@@ -76,7 +76,7 @@ namespace atomics {
         }
         T do_xchg( T v ) noexcept
         {
-            bool tr = pre_op( &v_ );
+            bool tr = pre_op( &v_, K_XCHG );
             T old = v_;
             v_ = v;
             if ( tr ) post_op( K_XCHG, &v_, sizeof( T ), c_isptr, &old, &v );
@@ -84,7 +84,7 @@ namespace atomics {
         }
         bool do_cas( T& expected, T desired ) noexcept
         {
-            bool tr = pre_op( &v_ );
+            bool tr = pre_op( &v_, K_CAS_OK );
             T cur = v_;
             if ( same( cur, expected )) {
                 v_ = desired;
